@@ -67,7 +67,7 @@ def cli_task(item):
             paths.append(fp)
         be = os.path.join(d, 'noop.stoneg.py')
         with open(be, 'w') as f:
-            f.write('from stone.backend import Backend\nclass NoopBackend(Backend):\n    def generate(self, api):\n        pass\n')
+            f.write('from stone.backend import Backend\nclass NoopBackend(Backend):\n    preserve_aliases = True\n    def generate(self, api):\n        pass\n')
         code, api, out, err, esc = impl.run_cli([be, os.path.join(d, 'out')] + paths)
         v = []
         if esc is not None:
